@@ -11,6 +11,7 @@ mkdir -p "$build/bin" "$build/extract"
 export GOFLAGS=-mod=mod GOPROXY=off GOSUMDB=off GOTOOLCHAIN=local CARGO_NET_OFFLINE=true
 rc=0
 if [ "$what" = all ] || [ "$what" = coq ]; then
+  python3 "$root/tools/gen_tables.py" > "$build/tables.log" 2>&1 || { echo "BUILD-FAIL tables (see $build/tables.log)"; rc=1; }
   ( cd "$root/coq" && { [ -f Makefile ] && [ Makefile -nt _CoqProject ] || coq_makefile -f _CoqProject -o Makefile >/dev/null 2>&1; }
     timeout 3000 make -j16 > "$build/coq.log" 2>&1 ) || { echo "BUILD-FAIL coq (see $build/coq.log)"; rc=1; }
 fi
